@@ -73,6 +73,7 @@ def install(ctx, mods):
     def pre_metrics(call):
         state["tp"] = []
         state["resampled"] = 0
+        state["resample_args"] = None
 
     def post_tp(call):
         if call.exc is not None:
@@ -123,6 +124,24 @@ def install(ctx, mods):
                 hop = float(np.min(np.diff(rt))) if rt.size > 1 else 1.0
                 differs = float(np.max(np.abs(rt - et))) > max(1e-3, 0.1 * hop) \
                     and float(np.max(np.abs(rt - et))) > 1e-4 * (1 + float(np.max(np.abs(rt))))
+            ra = state.get("resample_args") if state["resampled"] else None
+            if ra is not None:
+                # it is the estimate as given that is resampled, onto the reference times
+                ctx.count("contract.resample_called_on_the_given_estimate")
+                try:
+                    same = np.array_equal(np.asarray(ra[0], dtype=float), et) and \
+                        np.array_equal(np.asarray(ra[2], dtype=float), rt) and \
+                        len(ra[1]) == len(bb["est_freqs"]) and all(
+                            np.array_equal(np.asarray(x, dtype=float),
+                                           np.asarray(y, dtype=float))
+                            for x, y in zip(ra[1], bb["est_freqs"]))
+                except Exception:
+                    same = True
+                if not same:
+                    _v(ctx, call, "multipitch.metrics", "resamples-something-else",
+                       "resample_multipitch was called with times %s / target %s, not with "
+                       "the estimate's times %s / the reference times %s" % (
+                           short(ra[0], 80), short(ra[2], 80), short(et, 80), short(rt, 80)))
             if differs:
                 ctx.count("contract.resampled_when_bases_differ")
                 if not state["resampled"]:
@@ -198,6 +217,10 @@ def install(ctx, mods):
     def post_resample(call):
         if call.parent == "multipitch.metrics":
             state["resampled"] += 1
+            try:
+                state["resample_args"] = call.case()["args"][:3]
+            except Exception:
+                state["resample_args"] = None
         if call.exc is not None:
             return
         c = call.case()
